@@ -397,9 +397,10 @@ func generate(family string, rng *rand.Rand, thorough bool) []plan {
 						}
 						sc = append(sc, intent{kind: "cancel"})
 					}
-					if timed {
+					if s.Kind == "emit" {
 						// Emit cannot be interrupted while it sleeps, and a select with both arms ready may
 						// still pick the send: it is gone after at most (free capacity + 1) further periods
+						// (Throttling's pacer waits in a select with ctx.Done(): it is gone at once, no time is given to it)
 						sc = append(sc, intent{kind: "sleep", d: (s.N + 2) * max(s.Freq, 1)})
 					}
 					add(plan{stage: s, icaps: icaps, inputs: inputs, sched: &scripted{script: sc}, maxMoves: 60, drain: false, gen: "absent-consumer"})
